@@ -326,6 +326,7 @@ type runStats struct {
 	n     int
 	alloc uint64
 	restarts int
+	remeasured int
 }
 
 var rstats runStats
@@ -353,6 +354,18 @@ func runJobs(jobs []job, nproc int) []string {
 		}(lo, hi)
 	}
 	wg.Wait()
+	// time / allocation classes are re-measured once, alone, so that scheduling noise of the parallel run
+	// is not reported as a finding; a reproducible hang or over-allocation keeps its class
+	for i, r := range res {
+		if strings.Contains(r, "hang") || strings.Contains(r, "overalloc") {
+			one := make([]string, len(jobs))
+			runChunk(jobs, one, i, i+1)
+			res[i] = one[i]
+			rstats.Lock()
+			rstats.remeasured++
+			rstats.Unlock()
+		}
+	}
 	return res
 }
 
